@@ -111,6 +111,7 @@ class Evaluator:
     self.path = []
     self.frames = []
     self.loop_stack = []
+    self.gen_state = {}    # id -> dict(items=[terms], pos=int) for summarised generators
     self.cond_log = []     # every traced two-armed conditional met: (term, function, node)
     self.loop_ctl = []     # per active loop: list of (cond, snapshot, kind) for undecided continue/break
     self._ids = 0
@@ -500,7 +501,7 @@ class Evaluator:
     cur = self.ev(tgt, scope)
     fr = self.frames[-1]
     is_listy = cur.op in ('list', 'phi', 'loop', 'mut') or cur.op == 'set' or cur.op == 'dict'
-    if cur.op not in ('list', 'set', 'dict', 'mut', 'phi', 'loop', 'sym', 'attr', 'sub', 'elem', 'leaf', 'ite'):
+    if cur.op in ('ext', 'mod', 'closure', 'class', 'bound', 'partial', 'builtin', 'rec', 'obj', 'unknown', 'unbound', 'const'):
       return False
     # record effect on non-local receivers
     self._note_mutation(tgt, cur, meth, scope, call)
@@ -1210,6 +1211,8 @@ class Evaluator:
   def call_method_generic(self, recv, name, args, kwargs, n, scope):
     if recv.op == 'const' and isinstance(cval(recv), str):
       s = cval(recv)
+      if name == 'join' and len(args) == 1 and args[0].op in ('list', 'tuple') and all(is_const(x) and isinstance(cval(x), str) for x in args[0].args):
+        return const(s.join(cval(x) for x in args[0].args))
       if all(is_const(a) for a in args) and not kwargs and name in ('format', 'startswith', 'endswith', 'split', 'join', 'lower', 'upper', 'strip'):
         try:
           r = getattr(s, name)(*[cval(a) for a in args])
@@ -1410,6 +1413,12 @@ class Evaluator:
   # -- builtins
   def call_builtin(self, name, args, kwargs, n, scope):
     a = args
+    if name == 'next' and a and a[0].op == 'itergen':
+      st = self.gen_state.get(a[0].args[0])
+      if st is not None and st['pos'] < len(st['items']):
+        st['pos'] += 1
+        return st['items'][st['pos'] - 1]
+      return None
     if name == 'len' and len(a) == 1:
       x = a[0]
       if x.op in ('list', 'tuple', 'set', 'dict') and not any(isinstance(e, T) and e.op == 'star' for e in x.args):
@@ -1776,6 +1785,8 @@ class Evaluator:
         bound[p] = self_t
       elif i == 0 and p == 'self' and fi.cls is not None:
         bound[p] = T('obj', fi.cls.fq, 'self')
+      elif i == 0 and p == 'cls' and fi.cls is not None:
+        bound[p] = T('class', fi.cls.fq)
       else:
         b = self.bindings.get((fi.short, p))
         bound[p] = b if b is not None else sym('param', fi.short, p)
